@@ -358,7 +358,14 @@ where E: Probe + core::fmt::Display + core::str::FromStr<Err = X>, X: ErrProbe {
 // ------------------------------------------------------------------ iterator drivers (C04, C05, C08)
 fn proj<E: Probe, I: Iterator<Item = E> + Clone>(it: &I) -> String {
     // the whole abstract state of a handle: what clone().collect() yields
-    match catch(|| it.clone().map(|x| x.decl_index().to_string()).collect::<Vec<String>>()) {
+    match catch(|| {
+        let v = it.clone().map(|x| x.decl_index().to_string()).collect::<Vec<String>>();
+        // count / last / fold (provided by Iterator, or specialised by the derive) have to describe the same list: -2 marks a disagreement
+        let c = it.clone().count();
+        let l = it.clone().last().map(|x| x.decl_index().to_string());
+        let f = it.clone().fold(Vec::new(), |mut acc: Vec<String>, x| { acc.push(x.decl_index().to_string()); acc });
+        if c != v.len() || l.as_ref() != v.last() || f != v { vec!["-2".to_string()] } else { v }
+    }) {
         Ok(v) => jlist(&v),
         Err(_) => "[-1]".to_string(),
     }
@@ -466,8 +473,26 @@ where I: Iterator<Item = E> + DoubleEndedIterator + ExactSizeIterator + Clone + 
         } else if choice <= 5 {
             // adapters built on the iterator (observations on a clone; the handle does not move)
             let it = hs[a].as_ref().unwrap();
-            let kind = rng.below(5);
+            let kind = rng.below(9);
             let small = rng.below(n_enabled as u64 + 2) as usize;
+            if kind >= 5 {
+                // consumers every Iterator has (count, last, fold, rfold): whether the derive leaves them to the provided methods or
+                // defines them itself, they describe the same remaining list
+                let name = ["count", "last", "fold", "rfold"][(kind - 5) as usize];
+                let items = catch(|| {
+                    let c = it.clone();
+                    let v: Vec<String> = match kind {
+                        5 => vec![c.count().to_string()],
+                        6 => c.last().map(|x| vec![x.decl_index().to_string()]).unwrap_or_default(),
+                        7 => c.fold(Vec::new(), |mut acc, x| { acc.push(x.decl_index().to_string()); acc }),
+                        _ => c.rfold(Vec::new(), |mut acc, x| { acc.push(x.decl_index().to_string()); acc }),
+                    };
+                    v
+                });
+                o.line(&format!("{{\"op\":\"itobs\",\"def\":{},\"prof\":\"{}\",\"call\":\"{}\",\"h\":{},\"n\":0,\"big\":false,\"panic\":{},\"items\":{}}}",
+                    def, prof, name, 10 + a, jbool(items.is_err()), items.map(|v| jlist(&v)).unwrap_or("[]".to_string())));
+                continue;
+            }
             if kind == 4 {
                 // Debug of the iterator: `<Enum>Iter { len: <remaining> }`
                 let d = catch(|| format!("{:?}", it));
